@@ -62,7 +62,10 @@ class Box:
     def clean(self):
         for f in list(self.root.iterdir()):
             try:
-                f.unlink()
+                if f.is_dir() and not f.is_symlink():
+                    shutil.rmtree(f, ignore_errors=True)
+                else:
+                    f.unlink()
             except FileNotFoundError:
                 pass
 
@@ -104,8 +107,14 @@ def replay(sc):
         Box.pid = os.getpid()
     box = Box.inst
     box.clean()
-    box.fa.write_bytes(FASTA[1])
-    os.utime(box.fa, (1, 1))
+    target = box.fa
+    if sc.get("link"):
+        # the FASTA path is a symbolic link (a staged input, as workflow managers make them); rewrites replace the file it points to
+        (box.root / "store").mkdir()
+        target = box.root / "store" / "genome.fa"
+        os.symlink(target, box.fa)
+    target.write_bytes(FASTA[1])
+    os.utime(target, (1, 1))
     s = S.Sched(box.root, FA)
     conc = {}
 
@@ -150,8 +159,8 @@ def replay(sc):
                     s.log("", "tick")
                 elif kind == "r":
                     s.fver += 1
-                    s.real["io_open"](box.fa, "wb").write(FASTA[s.fver])
-                    os.utime(box.fa, (s.clock, s.clock))
+                    s.real["io_open"](target, "wb").write(FASTA[s.fver])
+                    os.utime(target, (s.clock, s.clock))
                     s.log("", "rewrite")
                 elif kind == "d":
                     try:
@@ -237,6 +246,14 @@ def main(tier, replay_path=None):
                 rest = rng.sample(rest, room)
             hs = risky + rest
             scen += [{"tokens": h, "cls": name} for h in hs]
+    if not replay_path:
+        # the same schedules with the FASTA path being a symbolic link to the file that is rewritten (a sample of those that rewrite it)
+        rw = [x for x in scen if any(k == "r" for k, _ in x["tokens"])]
+        rng2 = random.Random(C.seed() + 4)
+        for x in rng2.sample(rw, min(len(rw), cfg["cap"] // 2)):
+            scen.append({"tokens": x["tokens"], "cls": x["cls"] + "/symlinked-fasta", "link": 1})
+    elif "symlinked-fasta" in scen[0]["cls"]:
+        scen[0]["link"] = 1
     for i, s in enumerate(scen, 1):
         s["tid"] = i
     traces = C.pmap("harness.c15", "replay", scen, chunk=50)
